@@ -1,30 +1,445 @@
+// c16: drives asetypes.Decimal (NewDecimal, NewDecimalString, SetString, String, Int, Cmp) with generated
+// (precision, scale, value) triples and numeral texts and records what the implementation answers, for
+// comparison with the Coq model (coq/theories/C16/Model.v) and the executable specification (Spec.v).
+//
+//	fn 1  String:            (p s i)        -> (2) | (text text' i' rt)
+//	fn 2  NewDecimalString:  (p s text)     -> (2) | (0 i text-of-result)
+//	fn 3  NewDecimal:        (p s)          -> (0) | (2)
+//	fn 4  SetString on i0:   (p s i0 text)  -> (2) | (e i')
+//
+// A panic is recorded as (-1).
 package main
 
 import (
+	"flag"
 	"fmt"
+	"math/big"
+	"strings"
 
 	"github.com/SAP/go-dblib/asetypes"
+	"verifharness/sx"
 )
 
-func main() {
-	for _, c := range []struct {
-		p, s int
-		t    string
-	}{{5, 2, ".-5"}, {5, 2, ".+5"}, {5, 2, "-.5"}, {5, 2, "5."}, {5, 2, "."}, {5, 2, ""}, {5, 2, "-0"}, {5, 2, " 1.5 "}, {5, 2, "1_0"}, {5, 2, "0x10"}, {5, 2, ".-50"}, {5, 1, ".-5"},
-		{0, 0, "0"}, {0, 0, "0.0"}, {0, 0, "1"}, {5, 2, "1e2"}, {5, 2, "１"}, {5,2,"000000001.500000"}, {5,2,"1000.00"}, {5,2,"1000.0"},{5,2,"-999.99"}, {5,5,".-1234"}} {
-		d, err := asetypes.NewDecimalString(c.p, c.s, c.t)
-		if err != nil {
-			fmt.Printf("%d %d %q -> err %v\n", c.p, c.s, c.t, err)
-			continue
-		}
-		fmt.Printf("%d %d %q -> %s  %s   again %s\n", c.p, c.s, c.t, d.Int().String(), d.String(), d.String())
+var (
+	out      *sx.Out
+	rng      *sx.Rng
+	thorough bool
+	pow10    [64]*big.Int
+)
+
+func bigT(v *big.Int) sx.T { return sx.Big{V: new(big.Int).Set(v)} }
+
+// mkDec builds a decimal holding the unscaled value v through the public API only.
+func mkDec(p, s int, v *big.Int) (*asetypes.Decimal, error) {
+	d, err := asetypes.NewDecimal(p, s)
+	if err != nil {
+		return nil, err
 	}
-	d, _ := asetypes.NewDecimal(2, 1)
-	d.SetInt64(-1234)
-	fmt.Println(d.String())
-	d, _ = asetypes.NewDecimal(0, 0)
-	d.SetInt64(0)
-	fmt.Printf("%q\n", d.String())
-	d.SetInt64(7)
-	fmt.Printf("%q\n", d.String())
+	d.SetBytes(new(big.Int).Abs(v).Bytes())
+	if v.Sign() < 0 {
+		d.Negate()
+	}
+	return d, nil
+}
+
+func guard(fn int, in sx.T, tag string, f func() sx.T) {
+	var res sx.T
+	func() {
+		defer func() {
+			if r := recover(); r != nil {
+				res = sx.L{sx.I(-1)}
+			}
+		}()
+		res = f()
+	}()
+	out.Case(fn, in, res, tag)
+}
+
+func runFn1(p, s int, v *big.Int, tag string) {
+	in := sx.L{sx.I(int64(p)), sx.I(int64(s)), bigT(v)}
+	guard(1, in, tag, func() sx.T {
+		d, err := mkDec(p, s, v)
+		if err != nil {
+			return sx.L{sx.I(2)}
+		}
+		t1 := d.String()
+		t2 := d.String()
+		after := d.Int()
+		rt := false
+		if orig, err := mkDec(p, s, v); err == nil {
+			if d2, err := asetypes.NewDecimalString(p, s, t1); err == nil {
+				rt = orig.Cmp(*d2) && d2.Cmp(*orig)
+			}
+		}
+		return sx.L{sx.Text(t1), sx.Text(t2), bigT(after), sx.Bool(rt)}
+	})
+}
+
+func runFn2(p, s int, text, tag string) {
+	in := sx.L{sx.I(int64(p)), sx.I(int64(s)), sx.Text(text)}
+	guard(2, in, tag, func() sx.T {
+		d, err := asetypes.NewDecimalString(p, s, text)
+		if err != nil {
+			return sx.L{sx.I(2)}
+		}
+		return sx.L{sx.I(0), bigT(d.Int()), sx.Text(d.String())}
+	})
+}
+
+func runFn3(p, s int, tag string) {
+	in := sx.L{sx.I(int64(p)), sx.I(int64(s))}
+	guard(3, in, tag, func() sx.T {
+		d, err := asetypes.NewDecimal(p, s)
+		if err != nil {
+			return sx.L{sx.I(2)}
+		}
+		if d == nil || d.Precision != p || d.Scale != s || d.Int().Sign() != 0 {
+			return sx.L{sx.I(3)} // a decimal that is not the requested empty one
+		}
+		return sx.L{sx.I(0)}
+	})
+}
+
+func runFn4(p, s int, v0 *big.Int, text, tag string) {
+	in := sx.L{sx.I(int64(p)), sx.I(int64(s)), bigT(v0), sx.Text(text)}
+	guard(4, in, tag, func() sx.T {
+		d, err := mkDec(p, s, v0)
+		if err != nil {
+			return sx.L{sx.I(2)}
+		}
+		if err := d.SetString(text); err != nil {
+			return sx.L{sx.I(2), bigT(d.Int())}
+		}
+		return sx.L{sx.I(0), bigT(d.Int())}
+	})
+}
+
+// ---------------------------------------------------------------- generators
+
+func randDigits(n int, firstNonZero, lastNonZero bool) string {
+	b := make([]byte, n)
+	for i := range b {
+		b[i] = byte('0' + rng.Intn(10))
+	}
+	if n > 0 && firstNonZero {
+		b[0] = byte('1' + rng.Intn(9))
+	}
+	if n > 0 && lastNonZero && b[n-1] == '0' {
+		b[n-1] = byte('1' + rng.Intn(9))
+	}
+	return string(b)
+}
+
+// random integer with exactly n decimal digits (n >= 1), random sign
+func randInt(n int) *big.Int {
+	v, _ := new(big.Int).SetString(randDigits(n, true, false), 10)
+	if rng.Bool() {
+		v.Neg(v)
+	}
+	return v
+}
+
+var spaces = []string{" ", "\t", "\n", "\r", "\v", "\f", "\u0085", "\u00a0", "\u1680", "\u2000", "\u2003", "\u200a", "\u2028", "\u2029", "\u202f", "\u205f", "\u3000", "  ", " \t "}
+var nonSpaces = []string{"\u200b", "\u180e", "\ufeff", "\u001f", "\u0000", "\u2060", "\u001c", "\u2007x"}
+var junk = []string{"a", "e", "E", "x", "_", ",", "'", "/", ":", "\u0661", "\uff11", "e5", "0x", "--", "+-", "-", "+", " ", "\u00bd", "\u2212", "\U0001d7ce", "%", "f"}
+
+func pick(l []string) string { return l[rng.Intn(len(l))] }
+
+func signStr() string {
+	switch rng.Intn(4) {
+	case 0:
+		return "-"
+	case 1:
+		return "+"
+	}
+	return ""
+}
+
+// numeral with li integer and lf fraction digits
+func numeral(li, lf int, point bool) string {
+	t := randDigits(li, true, false)
+	if point || lf > 0 {
+		t += "." + randDigits(lf, false, true)
+	}
+	return t
+}
+
+func insertAt(t, x string, pos int) string {
+	r := []rune(t)
+	if pos > len(r) {
+		pos = len(r)
+	}
+	return string(r[:pos]) + x + string(r[pos:])
+}
+
+// one random text for (p, s), with its class tag
+func genText(p, s int) (string, string) {
+	ip := p - s
+	switch rng.Intn(14) {
+	case 0: // canonical, representable
+		li := 1
+		if ip > 0 {
+			li = rng.Range(1, ip)
+		}
+		lf := rng.Range(0, s)
+		t := numeral(li, lf, rng.Bool())
+		if ip == 0 {
+			t = "0" + t[1:]
+		}
+		return signStr() + t, "parse-canon"
+	case 1: // leading zeros and trailing zeros
+		li := rng.Range(0, ip)
+		lf := rng.Range(0, s)
+		t := strings.Repeat("0", rng.Range(1, 4)) + randDigits(li, false, false) + "." + randDigits(lf, false, false) + strings.Repeat("0", rng.Range(0, 4))
+		return signStr() + t, "parse-zeros"
+	case 2: // missing integer part / fraction digits
+		lf := rng.Range(0, s+1)
+		switch rng.Intn(4) {
+		case 0:
+			return signStr() + "." + randDigits(lf, false, false), "parse-sloppy"
+		case 1:
+			return signStr() + randDigits(rng.Range(0, ip+1), false, false) + ".", "parse-sloppy"
+		case 2:
+			return signStr() + "." + strings.Repeat("0", rng.Range(0, 3)), "parse-sloppy"
+		}
+		return signStr() + pick([]string{"", ".", "..", "0", "00", "0.", ".0", "0.0"}), "parse-sloppy"
+	case 3: // spaces around, sometimes inside
+		t := signStr() + numeral(rng.Range(1, ip+1), rng.Range(0, s), rng.Bool())
+		switch rng.Intn(5) {
+		case 0:
+			return pick(spaces) + t, "parse-space"
+		case 1:
+			return t + pick(spaces), "parse-space"
+		case 2:
+			return pick(spaces) + pick(spaces) + t + pick(spaces), "parse-space"
+		case 3:
+			return insertAt(t, pick(spaces), rng.Range(1, len(t))), "parse-space"
+		}
+		return pick(nonSpaces) + t + pick([]string{"", " ", "\u200b"}), "parse-space"
+	case 4: // several points
+		t := numeral(rng.Range(0, ip+1), rng.Range(0, s+1), true)
+		n := rng.Range(1, 2)
+		for i := 0; i < n; i++ {
+			t = insertAt(t, ".", rng.Range(0, len(t)))
+		}
+		return signStr() + t, "parse-points"
+	case 5: // junk inserted into a numeral
+		t := signStr() + numeral(rng.Range(0, ip+1), rng.Range(0, s), rng.Bool())
+		return insertAt(t, pick(junk), rng.Range(0, len(t))), "parse-junk"
+	case 6: // sign or junk in the fraction
+		f := randDigits(rng.Range(0, s), false, false)
+		f = insertAt(f, pick([]string{"-", "+", "-", "+", "x", "e1", " "}), rng.Range(0, len(f)))
+		return pick([]string{"", "", "-", "+", "0", "1", "-1"}) + "." + f + strings.Repeat("0", rng.Intn(3)), "parse-signfrac"
+	case 7: // too many integer digits / digits
+		li := ip + rng.Range(1, 2)
+		lf := rng.Range(0, s)
+		return signStr() + numeral(li, lf, rng.Bool()), "parse-toolong"
+	case 8: // too many fraction digits
+		li := rng.Range(0, ip)
+		lf := s + rng.Range(1, 2)
+		return signStr() + randDigits(li, true, false) + "." + randDigits(lf, false, true), "parse-toofrac"
+	case 9: // too many fraction digits that are only zeros: representable
+		li := rng.Range(1, ip+1)
+		lf := rng.Range(0, s)
+		return signStr() + numeral(li, lf, true) + strings.Repeat("0", rng.Range(1, 5)), "parse-zeros"
+	case 10: // random strings over a small alphabet
+		n := rng.Range(0, p+2)
+		const alpha = "0123456789012345678901234567890123456789..+- e"
+		b := make([]byte, n)
+		for i := range b {
+			b[i] = alpha[rng.Intn(len(alpha))]
+		}
+		return string(b), "parse-random"
+	case 11: // random digit strings of length 0..p+2 with or without sign and point
+		n := rng.Range(0, p+2)
+		t := randDigits(n, false, false)
+		if rng.Bool() {
+			t = insertAt(t, ".", rng.Range(0, n))
+		}
+		return signStr() + t, "parse-digits"
+	case 12: // sign in odd places
+		t := numeral(rng.Range(1, ip+1), rng.Range(0, s), rng.Bool())
+		switch rng.Intn(4) {
+		case 0:
+			return pick([]string{"--", "++", "+-", "-+", "- ", "+ "}) + t, "parse-sign"
+		case 1:
+			return t + pick([]string{"-", "+"}), "parse-sign"
+		case 2:
+			return insertAt(t, pick([]string{"-", "+"}), rng.Range(1, len(t))), "parse-sign"
+		}
+		return pick([]string{"-", "+", "-.", "+.", "-+.", ".-", ".+"}), "parse-sign"
+	}
+	// exactly at the limits
+	li, lf := ip, s
+	t := strings.Repeat("9", li) + "." + strings.Repeat("9", lf)
+	switch rng.Intn(3) {
+	case 0:
+		t = "1" + strings.Repeat("0", li) + "." + strings.Repeat("0", lf)
+	case 1:
+		t = strings.Repeat("9", li) + "." + strings.Repeat("9", lf) + "9"
+	}
+	return signStr() + t, "parse-limit"
+}
+
+func fixedTexts(p, s int) [][2]string {
+	ip := p - s
+	nines := func(n int) string { return strings.Repeat("9", n) }
+	zeros := func(n int) string { return strings.Repeat("0", n) }
+	l := [][2]string{
+		{"", "parse-sloppy"}, {".", "parse-sloppy"}, {"-", "parse-sign"}, {"+", "parse-sign"}, {"0", "parse-canon"}, {"-0", "parse-canon"},
+		{"0.0", "parse-canon"}, {"-0.0", "parse-canon"}, {"+0.0", "parse-canon"}, {" 0.0 ", "parse-space"}, {".0", "parse-sloppy"}, {"0.", "parse-sloppy"},
+		{"1.2.3", "parse-points"}, {"1..2", "parse-points"}, {".-5", "parse-signfrac"}, {".+5", "parse-signfrac"}, {"1.-5", "parse-signfrac"},
+		{"0.5x", "parse-signfrac"}, {".-" + nines(s), "parse-signfrac"}, {".+" + zeros(s) + "1", "parse-signfrac"},
+		{nines(ip) + "." + nines(s), "parse-limit"}, {"-" + nines(ip) + "." + nines(s), "parse-limit"},
+		{"1" + zeros(ip) + "." + zeros(s), "parse-limit"}, {"-1" + zeros(ip), "parse-limit"},
+		{nines(ip) + "." + nines(s) + "1", "parse-limit"}, {"0." + zeros(s) + "1", "parse-toofrac"}, {"0." + zeros(s) + "0", "parse-zeros"},
+		{zeros(3) + nines(ip) + "." + nines(s) + zeros(3), "parse-zeros"}, {"1e2", "parse-junk"}, {"0x1", "parse-junk"}, {"1_0", "parse-junk"},
+		{"\uff11", "parse-junk"}, {"1 2", "parse-space"}, {"- 1", "parse-space"}, {"\u00a01\u2003", "parse-space"}, {" 1 ", "parse-space"}, {"\u200b1", "parse-space"},
+	}
+	if ip > 0 {
+		l = append(l, [2]string{"1" + zeros(ip-1), "parse-limit"}, [2]string{"1" + zeros(ip-1) + ".", "parse-limit"})
+	}
+	if s > 0 {
+		l = append(l, [2]string{"0." + zeros(s-1) + "1", "parse-limit"}, [2]string{"-." + zeros(s-1) + "1", "parse-sloppy"})
+	}
+	return l
+}
+
+func main() {
+	outPath := flag.String("out", "", "case file")
+	tier := flag.String("tier", "quick", "quick|thorough")
+	flag.Parse()
+	if *outPath == "" {
+		fmt.Println("usage: c16 -out file [-tier quick|thorough]")
+		return
+	}
+	thorough = *tier == "thorough"
+	rng = sx.NewRng(sx.EnvSeed())
+	out = sx.NewOut(*outPath)
+	defer out.Close()
+	for k := range pow10 {
+		pow10[k] = new(big.Int).Exp(big.NewInt(10), big.NewInt(int64(k)), nil)
+	}
+	one := big.NewInt(1)
+
+	type ps struct{ p, s int }
+	var pairs []ps
+	pairs = append(pairs, ps{0, 0})
+	for p := 1; p <= 38; p++ {
+		for s := 0; s <= p; s++ {
+			pairs = append(pairs, ps{p, s})
+		}
+	}
+
+	// ---- fn 1: String on boundary values, exhaustively over all (p, s)
+	var someTexts []struct {
+		ps
+		t string
+	}
+	for _, q := range pairs {
+		p, s := q.p, q.s
+		seen := map[string]bool{}
+		emit := func(v *big.Int, tag string) {
+			if seen[v.String()] {
+				return
+			}
+			seen[v.String()] = true
+			runFn1(p, s, v, fmt.Sprintf("%s;p=%d;s=%d", tag, p, s))
+		}
+		both := func(v *big.Int, tag string) {
+			emit(v, tag)
+			emit(new(big.Int).Neg(v), tag)
+		}
+		emit(big.NewInt(0), "str-boundary")
+		both(one, "str-boundary")
+		for k := 0; k <= p; k++ {
+			if k < p {
+				both(pow10[k], "str-boundary")
+				both(new(big.Int).Add(pow10[k], one), "str-boundary")
+			}
+			both(new(big.Int).Sub(pow10[k], one), "str-boundary")
+		}
+		// values with more digits than the precision: outside the property, model equality only
+		both(pow10[p], "str-overlong")
+		both(new(big.Int).Add(pow10[p], big.NewInt(7)), "str-overlong")
+		both(new(big.Int).Sub(pow10[p+2], one), "str-overlong")
+	}
+	// ---- fn 1: random values of every digit length
+	reps := 1
+	if thorough {
+		reps = 12
+	}
+	for _, q := range pairs {
+		for n := 1; n <= q.p; n++ {
+			for r := 0; r < reps; r++ {
+				v := randInt(n)
+				runFn1(q.p, q.s, v, fmt.Sprintf("str-random;p=%d;s=%d;n=%d", q.p, q.s, n))
+				if r == 0 && (n == q.p || n == q.s || n == q.s+1 || rng.Intn(6) == 0) {
+					if d, err := mkDec(q.p, q.s, v); err == nil {
+						someTexts = append(someTexts, struct {
+							ps
+							t string
+						}{q, d.String()})
+					}
+				}
+				// digits that end / start in zeros around the split point
+				if q.s > 0 && n > 1 {
+					z := rng.Range(1, n-1)
+					w := new(big.Int).Mul(randInt(n-z), pow10[z])
+					runFn1(q.p, q.s, w, fmt.Sprintf("str-zeros;p=%d;s=%d;n=%d", q.p, q.s, n))
+				}
+			}
+		}
+		if rng.Intn(4) == 0 {
+			runFn1(q.p, q.s, randInt(q.p+rng.Range(1, 3)), fmt.Sprintf("str-overlong;p=%d;s=%d", q.p, q.s))
+		}
+	}
+	// invalid (p, s): NewDecimal fails
+	for _, q := range []ps{{-1, 0}, {39, 0}, {5, 6}, {5, -1}, {39, 39}, {0, 1}} {
+		runFn1(q.p, q.s, big.NewInt(5), "str-invalid")
+		runFn2(q.p, q.s, "0", "parse-invalid-ps")
+		runFn2(q.p, q.s, "1.5", "parse-invalid-ps")
+		runFn4(q.p, q.s, big.NewInt(5), "0", "set-invalid-ps")
+	}
+
+	// ---- fn 2 / fn 4: texts printed by String, fixed lists, generated classes
+	for _, x := range someTexts {
+		runFn2(x.p, x.s, x.t, "parse-string")
+	}
+	nrand := 40
+	if thorough {
+		nrand = 600
+	}
+	for _, q := range pairs {
+		p, s := q.p, q.s
+		for _, ft := range fixedTexts(p, s) {
+			runFn2(p, s, ft[0], ft[1])
+			if rng.Intn(3) == 0 {
+				runFn4(p, s, randInt(rng.Range(1, p+1)), ft[0], "set-"+ft[1])
+			}
+		}
+		for r := 0; r < nrand; r++ {
+			t, tag := genText(p, s)
+			runFn2(p, s, t, tag)
+			if rng.Intn(4) == 0 {
+				var v0 *big.Int
+				if p == 0 {
+					v0 = big.NewInt(0)
+				} else {
+					v0 = randInt(rng.Range(1, p))
+				}
+				runFn4(p, s, v0, t, "set-"+tag)
+			}
+		}
+	}
+
+	// ---- fn 3: every (p, s) in -2..40 squared, and a few far away
+	for p := -2; p <= 40; p++ {
+		for s := -2; s <= 40; s++ {
+			runFn3(p, s, "sanity")
+		}
+	}
+	for _, q := range []ps{{1 << 31, 0}, {-(1 << 31), 0}, {38, -(1 << 40)}, {1 << 40, 1 << 40}, {100, 50}, {38, 1 << 33}} {
+		runFn3(q.p, q.s, "sanity-far")
+	}
 }
